@@ -37,6 +37,13 @@ def rename_classes(lab, seed):
     return tuple(perm[v] for v in lab)
 
 
+def spread_classes(lab):
+    """Class ids that are neither small nor consecutive (labels are only compared for equality):
+    0 -> 3, 1 -> 1000, 2 -> 257, 3 -> 70000, ..."""
+    table = [3, 1000, 257, 70000, 12, 65536]
+    return tuple(table[v] for v in lab)
+
+
 # --------------------------------------------------------------------------
 # weighted complete graphs
 # --------------------------------------------------------------------------
